@@ -1,10 +1,10 @@
 (* C09, clauses (a1) legality of status transitions and (b) status at launch: the name-level relation.
-   Proved for histories in which no stop execution writes Terminating (assumption monitor), outside the
-   duplicate-instance window w_dup. *)
+   Proved for histories in which Terminating is only written over a running status of a live command
+   (assumption monitor asm), outside the duplicate-instance window w_dup. *)
 From Coq Require Import List ZArith NArith Bool Lia.
 From RecordUpdate Require Import RecordSet.
 From PC.Base Require Import Assoc.
-From PC.Sup Require Import Model Monitors Tactics Sim ObsFacts Effects RelCore LemC09 LemC09b LemC09c RelC09.
+From PC.Sup Require Import Model Monitors Tactics Sim ObsFacts Effects RelCore LemC09 LemC09b RelC09.
 Import ListNotations RecordSetNotations.
 
 (* ---- association-list facts --------------------------------------------------------------------------- *)
@@ -99,13 +99,12 @@ Record P2 (s : sys) (i : iid) (x : inst) (xo : oinst) : Prop := mkP2 {
   p_launches : pre_pc (pc x) = true -> launches x = 0;
   p_notbegun : begun s i = false -> pre0_pc (pc x) = true;
   p_status : done_pc (pc x) = false -> begun s i = true -> okst (pc x) (st (vis_of s (nm x))) = true;
-  p_fresh : done_pc (pc x) = false -> begun s i = false -> o_byapi xo = false -> st (vis_of s (nm x)) = SPending;
   (* created, Pending written, goroutine not yet begun: Pending is still reported *)
   p_staged : done_pc (pc x) = false -> begun s i = false -> staged1 s i = true -> st (vis_of s (nm x)) = SPending }.
 
 Lemma P2_frame s s' i x x' xo xo' : msame s s' -> stage_le s s' -> ifr x x' -> ofr xo xo' -> P2 s i x xo -> P2 s' i x' xo'.
 Proof.
-  intros M SL (Hn & _ & Hl & Hp & _) (_ & _ & _ & _ & Hes & Hed & Hb) [A B C D E F G].
+  intros M SL (Hn & _ & Hl & Hp & _) (_ & _ & _ & _ & Hes & Hed & Hb) [A B C D E G].
   constructor; rewrite ?Hp, ?Hl, ?Hn, ?Hes, ?Hed, ?Hb, ?(msame_begun _ _ _ M), ?(msame_st _ _ _ M); auto.
 Qed.
 
@@ -125,37 +124,12 @@ Proof.
   destruct C as (x2 & E2 & F). exists x. split; [reflexivity|]. congruence.
 Qed.
 
-(* well-formed configuration: process names are unique *)
-Fixpoint nodupN (l : list N) : bool :=
-  match l with [] => true | a :: r => negb (memN a r) && nodupN r end.
-Definition wf_confs (cs : amap pconf) : bool := nodupN (map fst cs).
-
-Lemma in_get_nodup {A} (m : amap A) k v : nodupN (map fst m) = true -> In (k, v) m -> get k m = Some v.
-Proof.
-  induction m as [|[k' v'] r IH]; cbn; [tauto|]. intros H Hin. apply andb_true_iff in H. destruct H as [H1 H2].
-  destruct (N.eqb_spec k' k) as [->|Hne].
-  - destruct Hin as [Hin|Hin]; [congruence|]. exfalso. apply negb_true_iff in H1.
-    assert (memN k (map fst r) = true); [|congruence]. apply memN_In. now apply (in_map fst) in Hin.
-  - destruct Hin as [Hin|Hin]; [congruence|]. auto.
-Qed.
-
-Lemma runnable_not_deferred s n : wf_confs (confs s) = true -> memN n (runnable_names s) = true ->
-  exists c, get n (confs s) = Some c /\ deferred c = false.
-Proof.
-  intros Hwf H. apply memN_In in H. unfold runnable_names in H. apply in_map_iff in H. destruct H as ([k c] & Hk & Hin).
-  cbn in Hk. subst k. apply filter_In in Hin. destruct Hin as [Hin Hd]. cbn in Hd. apply negb_true_iff in Hd.
-  exists c. split; [|exact Hd]. now apply in_get_nodup.
-Qed.
-
 Section RelC09b.
 Context (cs : amap pconf).
 
 Definition uniq (s : sys) : Prop :=
   forall i j x y, get i (insts s) = Some x -> get j (insts s) = Some y ->
     nm x = nm y -> done_pc (pc x) = false -> done_pc (pc y) = false -> i = j.
-Definition noinst_status (s : sys) : Prop :=
-  forall n c, get n cs = Some c -> (forall i x, get i (insts s) = Some x -> nm x <> n) ->
-    st (vis_of s n) = if deferred c then SDisabled else SPending.
 Definition begun_has (s : sys) : Prop := forall i, get i (insts s) = None -> begun s i = false.
 Definition IR2 (s : sys) (o : obs) : Prop :=
   forall i x xo, get i (insts s) = Some x -> get i (oi o) = Some xo -> P2 s i x xo.
@@ -164,7 +138,6 @@ Record R2 (s : sys) (o : obs) : Prop := mkR2 {
   r2_r1 : R1 cs s o;
   r2_inst : IR2 s o;
   r2_uniq : uniq s;
-  r2_noinst : noinst_status s;
   r2_begun : begun_has s }.
 
 (* the assumptions about the history under which (a1) and (b) are proved *)
@@ -175,9 +148,6 @@ Definition asm (o : obs) (te : tid * event) : bool :=
       let x := oi_get o i in
       is_running_status (r_status (on_get o (o_nm x))) && o_alive x
       && negb (opt_eqb status_eqb (o_endst x) (Some STerminating))
-  | ENewInst i n =>
-      (* Run()'s spawn loop creates only the first instance of a name *)
-      api_thread o (fst te) || forallb (fun y => negb (N.eqb (o_nm y) n)) (vals (oi o))
   | _ => true
   end.
 
@@ -187,7 +157,6 @@ Proof.
   - apply R1_init.
   - intros i x xo H. discriminate H.
   - intros i j x y H. discriminate H.
-  - intros n c Hc _. unfold vis_of, init. cbn. rewrite (get_map_fst init_vis cs n), Hc. reflexivity.
   - intros i _. reflexivity.
 Qed.
 
@@ -197,12 +166,6 @@ Proof.
   destruct (msame_inv _ _ _ _ M Hx) as (x & Ex & (Hnx & _ & _ & Hpx & _)).
   destruct (msame_inv _ _ _ _ M Hy) as (y & Ey & (Hny & _ & _ & Hpy & _)).
   eapply (U i j x y); eauto; congruence.
-Qed.
-Lemma noinst_frame s s' : noinst_status s -> msame s s' -> noinst_status s'.
-Proof.
-  intros N M n c Hc Hno. rewrite (msame_st _ _ n M). apply (N n c Hc).
-  intros i x Hx. destruct M as (_ & _ & C & _). specialize (C i). rewrite Hx in C. destruct C as (x' & Ex' & (Hn & _)).
-  rewrite <- Hn. eapply Hno; eauto.
 Qed.
 Lemma begun_frame s s' : begun_has s -> msame s s' -> begun_has s'.
 Proof. intros B M i Hi. rewrite (msame_begun _ _ i M). apply B. eapply msame_none; eauto. Qed.
@@ -215,14 +178,14 @@ Qed.
 
 Lemma R2_frame s s' o o' : R1 cs s' o' -> R2 s o -> msame s s' -> stage_le s s' -> osame o o' -> R2 s' o'.
 Proof.
-  intros H1 [_ A B C D] M SL O. constructor; eauto using IR2_frame, uniq_frame, noinst_frame, begun_frame.
+  intros H1 [_ A B D] M SL O. constructor; eauto using IR2_frame, uniq_frame, begun_frame.
 Qed.
 
 Lemma P2_same s s' j y yo yo' : P2 s j y yo -> begun s' j = begun s j ->
   st (vis_of s' (nm y)) = st (vis_of s (nm y)) ->
   o_ended yo' = o_ended yo -> o_endst yo' = o_endst yo -> o_byapi yo' = o_byapi yo ->
   (staged1 s' j = true -> staged1 s j = true) -> P2 s' j y yo'.
-Proof. intros [A B C D E F G] Hb Hs H1 H2 H3 H4. constructor; rewrite ?Hb, ?Hs, ?H1, ?H2, ?H3; auto. Qed.
+Proof. intros [A B C D E G] Hb Hs H1 H2 H3 H4. constructor; rewrite ?Hb, ?Hs, ?H1, ?H2, ?H3; auto. Qed.
 
 Lemma after_done p : after_pc p = true -> done_pc p = true.
 Proof. destruct p; cbn; try discriminate; auto. Qed.
@@ -238,7 +201,7 @@ Lemma R2_local s s' o o' i x x' :
   (forall xo xo', get i (oi o) = Some xo -> get i (oi o') = Some xo' -> P2 s i x xo -> P2 s' i x' xo') ->
   R2 s' o'.
 Proof.
-  intros [_ A U N B] H1 Hx Hx' Hfr Hth Hsg Hst Hnm Hdone Hobs Hi.
+  intros [_ A U B] H1 Hx Hx' Hfr Hth Hsg Hst Hnm Hdone Hobs Hi.
   assert (Hbeg : forall j, begun s' j = begun s j) by (intros j; unfold begun; now rewrite Hth).
   constructor; auto.
   - intros j y yo' Hy Hyo. destruct (Hobs j yo' Hyo) as (yo & Eyo & Hsame).
@@ -255,10 +218,6 @@ Proof.
       - rewrite (Hfr j Hne) in Hy. eauto. }
     destruct (Hback _ _ Hy1 Hd1) as (z1 & Ez1 & Hn1 & Hz1). destruct (Hback _ _ Hy2 Hd2) as (z2 & Ez2 & Hn2 & Hz2).
     eapply (U j1 j2 z1 z2); eauto. congruence.
-  - intros n c Hc Hno. rewrite Hst. apply (N n c Hc). intros j y Hy.
-    destruct (N.eqb_spec j i) as [->|Hne].
-    + assert (y = x) by congruence. subst y. rewrite <- Hnm. eapply Hno; eauto.
-    + rewrite <- (Hfr j Hne) in Hy. eapply Hno; eauto.
   - intros j Hj. rewrite Hbeg. apply B. destruct (N.eqb_spec j i) as [->|Hne]; [congruence|]. now rewrite <- (Hfr j Hne).
 Qed.
 
@@ -283,7 +242,7 @@ Proof.
   eapply (R2_local s s' o _ i x x'); eauto.
   - intros Hd. eapply done_own; eauto.
   - intros j yo' Hyo. destruct (Hobs j yo' Hyo) as (yo & Eyo & E1 & E2 & E3). eauto.
-  - intros xo xo' Hxo Hxo' [A B C D E F G]. destruct (Hobs i xo' Hxo') as (yo & Eyo & E1 & E2 & E3).
+  - intros xo xo' Hxo Hxo' [A B C D E G]. destruct (Hobs i xo' Hxo') as (yo & Eyo & E1 & E2 & E3).
     assert (yo = xo) by congruence. subst yo.
     constructor; try (intros _ Hn; congruence).
     + intros He. rewrite E1 in He. eapply done_own; eauto.
@@ -320,7 +279,7 @@ Proof.
     + now apply after_done.
   - intros j yo' Hyo. destruct (Hobs j yo' Hyo) as (yo & Eyo & E1 & E3 & E2). exists yo. split; [exact Eyo|].
     intros Hne. repeat split; auto. rewrite E2. destruct (N.eqb_spec i j); [congruence|]. now rewrite andb_false_r.
-  - intros xo xo' Hxo Hxo' [A B C D E F G]. destruct (Hobs i xo' Hxo') as (yo & Eyo & E1 & E3 & E2).
+  - intros xo xo' Hxo Hxo' [A B C D E G]. destruct (Hobs i xo' Hxo') as (yo & Eyo & E1 & E3 & E2).
     assert (Hstg : staged1 s' i = staged1 s i) by (unfold staged1; now rewrite Hsg).
     assert (yo = xo) by congruence. subst yo. rewrite N.eqb_refl, andb_true_r in E2.
     destruct Htr as [E0 T1 T2 T3|E0 T1 T2 T3|c E0 T1 T2 T3|c E0 T1 T2 T3]; subst b; subst.
@@ -353,7 +312,7 @@ Proof.
   - apply upd_inst_stage.
   - intros n. now rewrite vis_of_upd_inst.
   - intros j yo' Hyo. destruct (Hobs j yo' Hyo) as (yo & Eyo & E1 & E2 & E3). eauto.
-  - intros xo xo' Hxo Hxo' [A B C D E F G]. destruct (Hobs i xo' Hxo') as (yo & Eyo & E1 & E2 & E3).
+  - intros xo xo' Hxo Hxo' [A B C D E G]. destruct (Hobs i xo' Hxo') as (yo & Eyo & E1 & E2 & E3).
     assert (yo = xo) by congruence. subst yo.
     constructor; cbn [pc nm launches]; unfold begun, staged1; rewrite ?upd_inst_thinst, ?upd_inst_stage, ?vis_of_upd_inst, ?E1, ?E2, ?E3; auto.
 Qed.
@@ -407,12 +366,12 @@ Proof.
     - split; [now rewrite E2|]. right; left. split; [eapply begun_own; eauto|]. right. left. eauto.
     - split; [now rewrite E2|]. right; left. split; [eapply begun_own; eauto|]. right. right. eauto. }
   destruct Hcase as [Hdx Hcase].
-  destruct HR as [_ A U N B].
+  destruct HR as [_ A U B].
   constructor; auto.
   - (* instances *)
     intros j y yo' Hy Hyo. destruct (Hobs j yo' Hyo) as (yo & Eyo & E2 & E3 & E1).
     destruct (N.eqb_spec i j) as [<-|Hne].
-    + assert (y = x') by congruence. subst y. destruct (A _ _ _ Hx Eyo) as [PA PB PC PD PE PF PG]. cbn [andb] in E1.
+    + assert (y = x') by congruence. subst y. destruct (A _ _ _ Hx Eyo) as [PA PB PC PD PE PG]. cbn [andb] in E1.
       assert (Hend : s0 <> STerminating -> opt_eqb status_eqb (o_endst yo) (Some s0) = true -> endst_pc s0 (pc x) = true).
       { intros Hnt0. destruct (o_endst yo) as [s1|] eqn:Es1; cbn; [|discriminate]. intros Hs. apply status_eqb_eq in Hs. subst s1.
         destruct (PB s0 eq_refl); [contradiction|assumption]. }
@@ -439,8 +398,7 @@ Proof.
         -- intros s1 Hs1. destruct (PB s1 Hs1) as [?|Hq]; [now left|]. rewrite Hp0 in Hq. discriminate.
         -- intros Hb. specialize (PD Hb). rewrite Hp0 in PD. discriminate.
         -- intros _ Hb. specialize (PD Hb). rewrite Hp0 in PD. discriminate.
-        -- intros _ Hb. specialize (PD Hb). rewrite Hp0 in PD. discriminate.
-    + rewrite (Hfr j) in Hy by congruence. destruct (A _ _ _ Hy Eyo) as [PA PB PC PD PE PF PG].
+    + rewrite (Hfr j) in Hy by congruence. destruct (A _ _ _ Hy Eyo) as [PA PB PC PD PE PG].
       assert (Eend : o_ended yo' = o_ended yo).
       { rewrite E1. destruct (N.eqb_spec i j); [congruence|reflexivity]. }
       assert (Hsame : done_pc (pc y) = false -> st (vis_of s' (nm y)) = st (vis_of s (nm y))).
@@ -448,7 +406,6 @@ Proof.
         exfalso. apply Hne. eapply (U i j x y); eauto. }
       constructor; rewrite ?Hbeg, ?Eend, ?E2, ?E3; auto.
       * intros Hdy Hb. rewrite (Hsame Hdy). auto.
-      * intros Hdy Hb Hby. rewrite (Hsame Hdy). auto.
       * intros Hdy Hb Hsj. rewrite (Hsame Hdy). apply PG; auto. rewrite <- Hstg; auto.
   - (* uniq *)
     intros j1 j2 y1 y2 Hy1 Hy2 Hn Hd1 Hd2.
@@ -460,12 +417,6 @@ Proof.
       - rewrite (Hfr j Hne) in Hy. eauto. }
     destruct (Hback _ _ Hy1 Hd1) as (z1 & Ez1 & Hn1 & Hz1). destruct (Hback _ _ Hy2 Hd2) as (z2 & Ez2 & Hn2 & Hz2).
     eapply (U j1 j2 z1 z2); eauto. congruence.
-  - (* names without instance *)
-    intros n c Hc Hno. rewrite Hst. destruct (N.eqb_spec (nm x) n) as [En|Hne].
-    + exfalso. eapply (Hno i x'); eauto. congruence.
-    + apply (N n c Hc). intros j y Hy. destruct (N.eqb_spec j i) as [->|Hnj].
-      * assert (y = x) by congruence. subst y. exact Hne.
-      * rewrite <- (Hfr j Hnj) in Hy. eapply Hno; eauto.
   - intros j Hj. rewrite Hbeg. apply B. destruct (N.eqb_spec j i) as [->|Hne]; [congruence|]. now rewrite <- (Hfr j Hne).
 Qed.
 
@@ -507,48 +458,19 @@ Proof.
   { intros j Hj. unfold staged1. cbn. rewrite get_del_other by congruence. reflexivity. }
   assert (Hvis : forall n, vis_of s' n = vis_of s n) by reflexivity.
   pose proof (obs_step_osame cs o th (EBegin i) eq_refl) as HO.
-  destruct HR as [_ A U N B]. constructor; auto.
+  destruct HR as [_ A U B]. constructor; auto.
   - intros j y yo' Hy Hyo. change (get j (insts s) = Some y) in Hy.
     destruct (osame_inv _ _ _ _ HO Hyo) as (yo & Eyo & (_ & _ & _ & _ & E2 & E1 & E3)).
-    destruct (A _ _ _ Hy Eyo) as [PA PB PC PD PE PF PG].
+    destruct (A _ _ _ Hy Eyo) as [PA PB PC PD PE PG].
     constructor; rewrite ?Hbeg, ?Hvis, ?E1, ?E2, ?E3; auto.
     + intros Hb. apply orb_false_iff in Hb. tauto.
     + intros Hd Hb. destruct (N.eqb_spec i j) as [<-|Hne].
       * assert (y = x) by congruence. subst y. pose proof (PD Hnb) as Hp0. rewrite (PG Hd Hnb Hsg).
         destruct (pc x); try discriminate. reflexivity.
       * rewrite orb_false_r in Hb. apply PE; auto.
-    + intros Hd Hb. apply orb_false_iff in Hb. destruct Hb as [Hb _]. apply PF; auto.
     + intros Hd Hb Hs. apply orb_false_iff in Hb. destruct Hb as [Hb Hne]. apply N.eqb_neq in Hne.
       apply PG; auto. rewrite <- Hstg; auto.
   - intros j Hj. change (get j (insts s) = None) in Hj. rewrite Hbeg, (B j Hj). cbn. destruct (N.eqb_spec i j); [congruence|reflexivity].
-Qed.
-
-(* threads: a thread on its way to runProcess from StartProcess/RestartProcess is known to the observer as an
-   API call other than Run; the names Run() still has to spawn are not disabled *)
-Definition TI (s : sys) (o : obs) : Prop := forall th,
-  (chain (apc_of s th) = true -> api_thread o th = true) /\
-  (forall todo, apc_of s th = ARun todo -> forall n, memN n todo = true -> exists c, get n cs = Some c /\ deferred c = false).
-
-Lemma TI_init ord : TI (init cs ord) (obs0 cs).
-Proof. intros th. split; [discriminate|]. intros todo H. discriminate H. Qed.
-
-Lemma TI_step s o th e s' : wf_confs cs = true -> confs s = cs -> TI s o -> step s (th, e) = Some s' ->
-  TI s' (obs_step cs o (th, e)).
-Proof.
-  intros Hwf Hcs HT H. destruct (step_apc _ _ _ _ H) as [A B]. intros th'.
-  unfold api_thread. rewrite obs_step_o_api.
-  destruct (N.eqb_spec th' th) as [->|Hne].
-  - destruct (HT th) as [T1 T2]. unfold api_thread in T1.
-    destruct e; cbn [api_rel] in B;
-    try (progress unfold weak_rel in B; destruct B as [B1 B2]; split; [intros Hc; auto|intros todo' Hq n9 Hn9; destruct (B2 todo' Hq) as (todo9 & Ea & Hsub); eauto]).
-    + (* EApiBegin *) rewrite B, get_set_same. destruct op; cbn; split; try discriminate; auto.
-      intros todo [= <-] n Hn. rewrite <- Hcs in Hwf. destruct (runnable_not_deferred s n Hwf Hn) as (c & Hc & Hd).
-      rewrite Hcs in Hc. eauto.
-    + (* EApiReturn *) rewrite B. split; discriminate.
-  - rewrite (A th' Hne). destruct (HT th') as [T1 T2]. unfold api_thread in T1. split; [|exact T2].
-    intros Hc. specialize (T1 Hc). destruct e; try exact T1.
-    + rewrite get_set_other by congruence. exact T1.
-    + rewrite get_del_other by congruence. exact T1.
 Qed.
 
 Lemma w_dup_newinst o th i n :
@@ -557,11 +479,11 @@ Lemma w_dup_newinst o th i n :
 Proof. reflexivity. Qed.
 
 Lemma R2_newinst s o th i n s' :
-  R2 s o -> TI s o -> R1 cs s' (obs_step cs o (th, ENewInst i n)) -> step_reg s th (ENewInst i n) = Some s' ->
-  asm o (th, ENewInst i n) = true -> w_dup (obs_step cs o (th, ENewInst i n)) = false ->
+  R2 s o -> R1 cs s' (obs_step cs o (th, ENewInst i n)) -> step_reg s th (ENewInst i n) = Some s' ->
+  w_dup (obs_step cs o (th, ENewInst i n)) = false ->
   R2 s' (obs_step cs o (th, ENewInst i n)).
 Proof.
-  intros HR HT H1 Hk Hasm Hw. destruct (newinst_effect _ _ _ _ _ Hk) as (c & Hc & Hi & Hcr & ->).
+  intros HR H1 Hk Hw. destruct (newinst_effect _ _ _ _ _ Hk) as (c & Hc & Hi & Hcr & ->).
   rewrite w_dup_newinst in Hw. apply orb_false_iff in Hw. destruct Hw as [_ Hdup].
   destruct (r2_r1 _ _ HR) as [HRc _]. rewrite (rc_confs _ _ _ HRc) in Hc.
   (* every earlier instance of the name has ended *)
@@ -578,32 +500,19 @@ Proof.
   assert (Hst : forall m, vis_of s' m = vis_of s m) by reflexivity.
   assert (Hstg : forall j, staged1 s' j = if N.eqb i j then false else staged1 s j).
   { intros j. unfold staged1. change (stage s') with (set i (th, 0) (stage s)). rewrite get_set. destruct (N.eqb i j); reflexivity. }
-  destruct HR as [_ A U N B]. constructor; auto.
+  destruct HR as [_ A U B]. constructor; auto.
   - intros j y yo' Hy Hyo. apply obs_newinst_get in Hyo. rewrite Hins, get_set in Hy.
     destruct (N.eqb_spec i j) as [<-|Hne].
     + injection Hy as <-. destruct Hyo as (_ & _ & _ & _ & E2 & E1 & E3).
       constructor; rewrite ?Hbeg, ?Hst, ?Hstg, ?N.eqb_refl, ?E1, ?E2, ?E3, ?(B i Hi); cbn; auto; try discriminate.
-      intros _ _ Hapi. cbn in Hasm. rewrite Hapi in Hasm. cbn in Hasm. rename Hasm into Hnone.
-      assert (Hdef : deferred c = false).
-      { destruct (HT th) as [T1 T2]. unfold creates in Hcr. change (apc (get_thread s th)) with (apc_of s th) in Hcr.
-        destruct (apc_of s th) eqn:Ea; try discriminate Hcr.
-        - destruct (T2 todo eq_refl n Hcr) as (c' & Hc' & Hd). congruence.
-        - specialize (T1 eq_refl). congruence.
-        - specialize (T1 eq_refl). congruence. }
-      rewrite (N n c Hc); [now rewrite Hdef|].
-      intros j y Hy Hn. destruct (rc_inst _ _ _ HRc j y Hy) as (yo & Hyo & Hno & _).
-      rewrite forallb_forall in Hnone. specialize (Hnone yo (get_in_vals _ _ _ Hyo)).
-      rewrite Hno, Hn, N.eqb_refl in Hnone. discriminate.
     + destruct Hyo as (yo & Eyo & (_ & _ & _ & _ & E2 & E1 & E3)).
-      destruct (A _ _ _ Hy Eyo) as [PA PB PC PD PE PF PG]. constructor; rewrite ?Hbeg, ?Hst, ?Hstg, ?E1, ?E2, ?E3; auto.
+      destruct (A _ _ _ Hy Eyo) as [PA PB PC PD PE PG]. constructor; rewrite ?Hbeg, ?Hst, ?Hstg, ?E1, ?E2, ?E3; auto.
       destruct (N.eqb_spec i j); [contradiction|exact PG].
   - intros j1 j2 y1 y2 Hy1 Hy2 Hn Hd1 Hd2. rewrite Hins, get_set in Hy1, Hy2.
     destruct (N.eqb_spec i j1) as [<-|N1]; destruct (N.eqb_spec i j2) as [<-|N2]; auto.
     + injection Hy1 as <-. cbn in Hn. rewrite (Hold j2 y2 Hy2 (eq_sym Hn)) in Hd2. discriminate.
     + injection Hy2 as <-. cbn in Hn. rewrite (Hold j1 y1 Hy1 Hn) in Hd1. discriminate.
     + eapply U; eauto.
-  - intros m c0 Hc0 Hno. rewrite Hst. apply (N m c0 Hc0). intros j y Hy.
-    apply (Hno j y). rewrite Hins, get_set. destruct (N.eqb_spec i j) as [<-|]; [congruence|exact Hy].
   - intros j Hj. rewrite Hins, get_set in Hj. destruct (N.eqb_spec i j); [discriminate|]. rewrite Hbeg. auto.
 Qed.
 
@@ -622,13 +531,10 @@ Proof.
   apply negb_true_iff in H3. auto.
 Qed.
 
-Lemma TI_flush s o th : TI s o -> TI (flush th s) o.
-Proof. intros HT th'. rewrite flush_apc. apply HT. Qed.
-
-Lemma R2_step s o th e s' : R2 s o -> TI s o -> step s (th, e) = Some s' -> asm o (th, e) = true ->
+Lemma R2_step s o th e s' : R2 s o -> step s (th, e) = Some s' -> asm o (th, e) = true ->
   w_dup (obs_step cs o (th, e)) = false -> R2 s' (obs_step cs o (th, e)).
 Proof.
-  intros HR HT H Hasm Hw. apply (TI_flush _ _ th) in HT.
+  intros HR H Hasm Hw.
   assert (H1 : R1 cs s' (obs_step cs o (th, e))) by (eapply R1_step; eauto; apply (r2_r1 _ _ HR)).
   apply (R2_flush _ _ th) in HR. unfold step in H. cbn [fst snd] in H.
   set (s0 := flush th s) in *. clearbody s0. clear s.
@@ -660,17 +566,15 @@ Proof.
   pose proof (R2_on_status _ _ _ _ HR Hx) as Hprev.
   destruct (r2_r1 _ _ HR) as [HRc _].
   destruct (rc_inst _ _ _ HRc i x Hx) as (xo & Hxo & Hn & Hc & Hla).
-  destruct (r2_inst _ _ HR _ _ _ Hx Hxo) as [PA PB PC PD PE PF PG].
+  destruct (r2_inst _ _ HR _ _ _ Hx Hxo) as [PA PB PC PD PE PG].
   assert (Hterm : s0 = STerminating -> is_running_status (st (vis_of sf (nm x))) = true).
   { intros Hs. destruct (asm_state _ _ _ _ Hasm Hs) as (Hr & _). now rewrite Hprev in Hr. }
   unfold mon_legal. cbn [snd]. rewrite Hprev. unfold oi_get. rewrite Hxo.
   destruct Htr as [c E1 E2 E3|E1 E2 E3|todo E1 E2 E3 E4 E5|E1 E2 E3 E4|c E1 E2 E3 E4|c E1 E2 E3].
   - specialize (Hterm E2). subst s0. destruct (st (vis_of sf (nm x))); try discriminate; reflexivity.
   - specialize (Hterm E2). subst s0. destruct (st (vis_of sf (nm x))); try discriminate; reflexivity.
-  - (* initial Pending *) subst s0. change (begun sf i = false) in E4.
-    destruct (o_byapi xo) eqn:Eb.
-    + rewrite Hla, PC by (now rewrite E2). cbn. now rewrite orb_true_r.
-    + rewrite PF; auto. now rewrite E2.
+  - (* initial Pending: the instance has never launched *) subst s0.
+    rewrite Hla, PC by (now rewrite E2). cbn. now rewrite orb_true_r.
   - subst s0. assert (Hb : begun sf i = true) by (eapply begun_own; eauto).
     rewrite E2 in PE. specialize (PE eq_refl Hb). cbn in PE. destruct (st (vis_of sf (nm x))); try discriminate; reflexivity.
   - subst s0. assert (Hb : begun sf i = true) by (eapply begun_own; eauto).
@@ -690,7 +594,7 @@ Proof.
   pose proof (R2_on_status _ _ _ _ HR Hx) as Hprev.
   destruct (r2_r1 _ _ HR) as [HRc _].
   destruct (rc_inst _ _ _ HRc i x Hx) as (xo & Hxo & _).
-  destruct (r2_inst _ _ HR _ _ _ Hx Hxo) as [PA PB PC PD PE PF PG].
+  destruct (r2_inst _ _ HR _ _ _ Hx Hxo) as [PA PB PC PD PE PG].
   unfold mon_launch. cbn [fst snd ev_inst]. rewrite <- (rc_th _ _ _ HRc), Hth, Hprev.
   assert (Hb : begun sf i = true) by (eapply begun_own; eauto).
   cbn in Htr. destruct (pc x) eqn:Ep; try discriminate. specialize (PE eq_refl Hb). cbn in PE.
@@ -700,16 +604,15 @@ Qed.
 Definition mon_ab (o : obs) (te : tid * event) : bool := mon_legal o te && mon_launch o te.
 
 Theorem C09_legal_launch_holds ord evs s :
-  wf_confs cs = true ->
   accept (init cs ord) evs = Some s -> holds' cs asm evs = true -> w_dup (final_obs cs evs) = false ->
   holds' cs mon_legal evs = true /\ holds' cs mon_launch evs = true.
 Proof.
-  intros Hwf Hacc HA HW. apply andb_true_iff. rewrite <- holds'_and.
-  eapply (sim2_holds cs ord (fun s o => w_dup o = true \/ (R2 s o /\ TI s o)) mon_ab asm w_dup); eauto.
-  - right. split; [apply R2_init|apply TI_init].
+  intros Hacc HA HW. apply andb_true_iff. rewrite <- holds'_and.
+  eapply (sim2_holds cs ord (fun s o => w_dup o = true \/ R2 s o) mon_ab asm w_dup); eauto.
+  - right. apply R2_init.
   - intros s1 o [th e] s1' HR Hs Ha. destruct (w_dup (obs_step cs o (th, e))) eqn:Ew; [auto|].
-    destruct HR as [Hd|[HR HT]]; [rewrite (w_dup_mono cs o (th, e) Hd) in Ew; discriminate|].
-    split; [right; split; [eapply R2_step; eauto|eapply TI_step; eauto; apply (rc_confs _ _ _ (proj1 (r2_r1 _ _ HR)))]|]. left. unfold mon_ab.
+    destruct HR as [Hd|HR]; [rewrite (w_dup_mono cs o (th, e) Hd) in Ew; discriminate|].
+    split; [right; eapply R2_step; eauto|]. left. unfold mon_ab.
     rewrite (R2_mon_legal _ _ _ _ _ HR Hs Ha), (R2_mon_launch _ _ _ _ _ HR Hs). reflexivity.
   - apply w_dup_mono.
 Qed.
@@ -719,12 +622,11 @@ End RelC09b.
 Definition C09_assumptions (cs : amap pconf) (evs : list (tid * event)) : bool := holds' cs asm evs.
 
 Theorem C09_main_partial_lemma cs ord evs s :
-  wf_confs cs = true ->
   accept (init cs ord) evs = Some s -> C09_assumptions cs evs = true -> w_dup (final_obs cs evs) = false ->
   holds_C09 cs evs = true.
 Proof.
-  intros Hwf Hacc HA HW. rewrite holds_C09_split.
-  destruct (C09_legal_launch_holds cs ord evs s Hwf Hacc HA HW) as [H1 H2].
+  intros Hacc HA HW. rewrite holds_C09_split.
+  destruct (C09_legal_launch_holds cs ord evs s Hacc HA HW) as [H1 H2].
   rewrite H1, H2, (C09_term_holds cs ord evs s Hacc), (C09_code_holds cs ord evs s Hacc). reflexivity.
 Qed.
 
